@@ -317,7 +317,11 @@ class Interval(Duration, Generic[_T]):
         return self.range("days")
 
     def __contains__(self, item: _T) -> bool:
-        return self.start <= item <= self.end
+        start, end = self.start, self.end
+        if not self._absolute and self.invert:
+            start, end = end, start
+
+        return start <= item <= end
 
     def __add__(self, other: timedelta) -> Duration:  # type: ignore[override]
         return self.as_duration().__add__(other)
